@@ -30,7 +30,11 @@ RULE = (
     "for 3..14-octet types every octet value in every position over 7 backgrounds + random arrays}; "
     "non-trivial = payload of the type's own kind and length (reaches the type's decoder); distinct by construction; "
     "plus a per-class sample through GroupAddressDPT.set_decoded_data"
+    "; thorough tier only: atheris/libFuzzer campaigns (vk/fuzz.py, fuzz/c07_target.py; 8 processes, half from an empty corpus, half from "
+    "a seed corpus of valid inputs, -runs budget, -seed derived from VERIF_SEED) with this same oracle inside the target: input = class index + payload kind + payload octets (FuzzedDataProvider), decode() and consumer() on every execution; each "
+    "execution counts as one evaluation, it is non-trivial by the same rule (payload of the type's own kind and length, measured in the target), distinct by input hash"
 )
+FUZZ_RUNS = 2_500_000  # executions per campaign (thorough tier)
 ASSUMPTIONS = [
     "payload octets are 0..255 and DPTBinary values 0..63 (what a parsed group telegram can carry)",
     "allowed failures: xknx.exceptions.CouldNotParseTelegram and ConversionError only",
@@ -144,6 +148,10 @@ def run(ctx) -> None:
     ctx.notes["dpt_classes"] = len(classes)
     parallel(ctx, class_worker, [(T.__name__,) for T in classes])
     ctx.exhaustive = True  # the <=2-octet / 6-bit core is enumerated completely for every class
+    if not ctx.quick:  # thorough tier only: coverage-guided campaigns, oracle inside the target
+        from vk.fuzz import run_fuzz
+
+        run_fuzz(ctx, PROPERTY, runs=FUZZ_RUNS, jobs=8)
 
 
 def replay(ctx, case) -> None:
